@@ -15,6 +15,7 @@ R0(k) == [k |-> k]
 RMp(a, b) == [k |-> "mp", a |-> a, b |-> b]
 RDyn(a, d) == [k |-> "dyn", a |-> a, d |-> d]
 RInst(a, d) == [k |-> "inst", a |-> a, d |-> d]
+RAx(t) == [k |-> "axiom", t |-> t]          \* load_axiom(t): t must be an axiom of the enclosing module
 RGen(a, x) == [k |-> "gen", a |-> a, x |-> x]
 
 NBot == NInst(Mu(0, SV(0)), <<>>)
@@ -31,6 +32,7 @@ Conc(r) ==
     [] r.k = "prop2" -> R(TRUE, TRUE, FALSE, Prop2Ax)
     [] r.k = "prop3" -> R(TRUE, TRUE, FALSE, Prop3Adv)
     [] r.k = "quant" -> R(TRUE, TRUE, FALSE, QuantifierAx)
+    [] r.k = "axiom" -> R(TRUE, TRUE, FALSE, r.t)
     [] r.k = "mp" -> LET a == Conc(r.a)  b == Conc(r.b) IN
                      IF ~a.ok \/ ~b.ok THEN Bad
                      ELSE LET ea == Expand(a.c) IN
